@@ -75,7 +75,7 @@ def parseSEv (timeout : Nat) (s : String) : Option (SEv × Nat) :=
     let d ← dt.toNat?
     match k.toList with
     | 'A' :: n => do pure (.ack (← (String.ofList n).toNat?), d)
-    | ['E'] => pure (.error, d)
+    | 'E' :: c => if c.isEmpty || (String.ofList c).toNat?.isSome then pure (.error, d) else none   -- any ERROR code ends the transfer
     | ['O'] => pure (.other, d)
     | ['G'] => pure (.fail, d)
     | _ => none
@@ -124,7 +124,7 @@ def sndLine (toks : List String) : String :=
 
 def parseREv (s : String) : Option REv :=
   match s.toList with
-  | ['E'] => some .error
+  | 'E' :: c => if c.isEmpty || (String.ofList c).toNat?.isSome then some .error else none   -- any ERROR code
   | ['T'] => some .fail
   | 'A' :: _ => some .fail
   | 'O' :: _ => some .fail
@@ -160,6 +160,12 @@ def rcvLine (toks : List String) : String :=
   | "rcv" :: b :: w :: rep :: clean :: snap :: evs =>
     match b.toNat?, w.toNat?, rep.toNat? with
     | some b, some w, some rep =>
+      -- volumes beyond what the list-based model handles in reasonable time and memory are left to the statement evaluated
+      -- on the implementation's observation alone (the check treats `skip` as "no model answer")
+      let volume := evs.foldl (fun acc e => match e.splitOn ":" with
+        | [_, "gen", l, _] => acc + (l.toNat?.getD 0)
+        | _ => acc) 0
+      if volume > 30000000 then "skip" else
       match evs.mapM parseREv with
       | none => "bad-op"
       | some es =>
